@@ -60,6 +60,32 @@ ArChecks(e) ==
   /\ Check(l, "ArNilKept", D!ArNilKept(e.c, e.o))
   /\ Check(l, "drift", e.o = D!ExpectedAr(e.c))
 
+\* a decoded message after the buffer it was decoded from has been reused
+LtChecks(e) ==
+  LET c == e.c
+      o == [cls |-> e.o.cls, later |-> e.o.later, enc |-> e.o.enc, f |-> e.o.f, g |-> e.o.g]
+      Val(name, m) == Check(l, "Lifetime." \o name, D!LtValueOK(c, o, m))
+      Rec(name, m) == Check(l, "Lifetime.Reencode." \o name, D!LtReencOK(c, o, m))
+  IN /\ Check(l, "Lifetime.Class", D!LtClsOK(c, o))
+     /\ Check(l, "Lifetime.Later", D!LtLaterOK(c, o))
+     /\ Val("IdType", "idType") /\ Val("IdValue", "idValue") /\ Val("Method", "method") /\ Val("Params", "params")
+     /\ Val("Result", "result") /\ Val("ErrCode", "errCode") /\ Val("ErrMsg", "errMsg") /\ Val("ErrData", "errData")
+     /\ Check(l, "Lifetime.Reencode", D!LtEncodes(c, o))
+     /\ Rec("IdType", "idType") /\ Rec("IdValue", "idValue") /\ Rec("Method", "method") /\ Rec("Params", "params")
+     /\ Rec("Result", "result") /\ Rec("ErrCode", "errCode") /\ Rec("ErrMsg", "errMsg") /\ Rec("ErrData", "errData")
+     /\ Check(l, "drift", o = D!ExpectedLt(c))
+
+\* a burst of calls through a buffer-reusing connection into a real session
+LbChecks(e) ==
+  /\ Check(l, "BurstAnswered", D!BurstAnswered(e.c, e.o))
+  /\ Check(l, "BurstIntact", D!BurstIntact(e.c, e.o))
+
+\* concurrent writers over a non-atomic io.Writer: the byte stream the peer reads; the frame order is one the
+\* machine CodecWrite allows for this plan (drift)
+WwChecks(e) ==
+  /\ Check(l, "FramesIntact", D!FramesIntact(e.c, e.o))
+  /\ Check(l, "drift", e.o.frames \in AsSet(e.c.orders))
+
 MNext == /\ l <= NLines /\ l' = l + 1
          /\ LET e == TraceLog[l] IN
               CASE e.k = "msg"  -> MsgChecks(e)
@@ -70,6 +96,9 @@ MNext == /\ l <= NLines /\ l' = l + 1
                 [] e.k = "fuzz" -> FuzzChecks(e)
                 [] e.k = "fr"   -> FrChecks(e)
                 [] e.k = "ar"   -> ArChecks(e)
+                [] e.k = "lt"   -> LtChecks(e)
+                [] e.k = "lb"   -> LbChecks(e)
+                [] e.k = "ww"   -> WwChecks(e)
 MSpec == MInit /\ [][MNext]_l
 MMark == MarkAt(l)
 MAccepted == Accepted
